@@ -33,6 +33,19 @@ package generator
 //@   pure
 //@   purefunc
 
+// Security wrapper and authenticators (instantiated by engine/vc/auth.go;
+// DESIGN.md §4.11):
+//
+//   emitted func authMiddlewareOr$1$1(w http.ResponseWriter, r *http.Request)      // closure over (fns, next)
+//     let fa = firstAccept(fns, r)    // least j with fns[j] != nil && fns[j].Auth(r) accepts, else len(fns)
+//     ensures fa == len(fns) ==> trace == old(trace) ++ [w.WriteHeader(401)]
+//     ensures fa <  len(fns) ==> trace == old(trace) ++ [next.ServeHTTP(w, request returned by fns[fa].Auth(r))]
+//     loop #0 invariant trace == old(trace) && fa > rangeindex
+//   emitted func (Security*Middleware).Auth(r *http.Request) (*http.Request, bool)
+//     ensures s == nil ==> result == (nil, false)
+//     ensures s != nil && credential absent  ==> result == (nil, false)
+//     ensures s != nil && credential present ==> result == s(r, first value [without "Bearer "])
+
 // ---- file_router.gotmpl: Route --------------------------------------------
 
 //@ emitted func (*API).route*(path string, method string) (h http.Handler, out string, hasPath bool)
